@@ -499,14 +499,6 @@ Section Correct.
   Qed.
 
   (* ---- expressions of the fragment do not change the store *)
-  Fixpoint pure (e : expr) : bool :=
-    match e with
-    | ENum _ => true | EBool _ => true | EVar _ => true
-    | EUn _ a => pure a
-    | EBin _ l r => pure l && pure r
-    | _ => false
-    end.
-
   Lemma eval_pure : forall e, pure e = true -> forall f st v s, eval f ge e st = Ret v s -> same_store st s.
   Proof.
     induction e as [n0|b0|bs|x|a i|g args|n0 args|u e IHe|o l IHl rr IHr]; intros Hp f st v s He; cbn [pure] in Hp; try discriminate.
@@ -758,5 +750,20 @@ Section Correct.
     destruct (cg_correct e RA n off code n' Hcg Hoff f st (Vint z) s He Hv) as (z' & Hz & _ & L). inversion Hz; subst z'.
     destruct (L mr pos nxt a b inp K_mr Hc Hp Hn) as (b' & m' & [k Hk] & Kp).
     exists k, (mk nxt (z mod W) b' 0 m'). repeat split; [exact Hk | exact Kp].
+  Qed.
+
+  (* the form used by the statement proofs *)
+  Corollary expr_runs : forall e n off code n', cg venv pool size nslots e RA n off = Some (code, n') -> off0 <= off ->
+    forall f st v s, eval f ge e st = Ret v s -> vars_ok st ->
+    same_store st s /\
+    exists z, v = Vint z /\ in_int z = true /\
+      forall pos nxt a b inp, code_at C lab pos code nxt -> 0 <= pos -> nxt < W ->
+      exists b' m', taus inp (mk pos a b 0 mr) (mk nxt (z mod W) b' 0 m') /\ keeps off mr m'.
+  Proof.
+    intros e n off code n' Hcg Hoff f st v s He Hv.
+    split; [exact (eval_pure e (cg_pure _ _ _ _ _ Hcg) _ _ _ _ He)|].
+    destruct (cg_correct e RA n off code n' Hcg Hoff f st v s He Hv) as (z & Hz & Hr & L).
+    exists z. repeat split; try assumption.
+    intros pos nxt a b inp Hc Hp Hn. exact (L mr pos nxt a b inp K_mr Hc Hp Hn).
   Qed.
 End Correct.
